@@ -28,6 +28,8 @@ struct RunCfg {
   std::string prog = "lbzip2";
   std::map<std::string, std::string> env;
   int ncpu = 4;
+  int nofile = 1024;                      // descriptor limit of the simulated process
+  uint64_t inherit_mask = 0;              // signals blocked in the inherited mask
   bool ign_pipe = false, ign_xfsz = false;
   size_t in_granul = 0, out_granul = 0, copy_granul = 0;
   int in_kind = sim::K_PIPE, out_kind = sim::K_PIPE;
